@@ -160,6 +160,8 @@ class ClassInfo(object):
         for c in self.mro():
             if name in c.class_consts:
                 for k in model.classes.values():
+                    if not (k in self.mro() or self in k.mro() or c in k.mro()):
+                        continue          # (an unrelated class using the same attribute name for something else)
                     for fn in k.methods.values():
                         for n in ast.walk(fn):
                             if isinstance(n, ast.Attribute) and n.attr == name and isinstance(n.ctx, (ast.Store, ast.Del)):
